@@ -147,6 +147,8 @@ def main():
         if recheck and r["patch"] in prev:
             prev[r["patch"]]["checks_fired"] = r.get("checks_fired")
             prev[r["patch"]]["check_detail"] = r.get("check_detail")
+            # a patch that no longer applies or builds on the current HEAD must not keep its old "kept"
+            prev[r["patch"]]["status"] = r.get("status")
         else:
             prev[r["patch"]] = r
     os.makedirs(OUT, exist_ok=True)
